@@ -41,14 +41,20 @@ def demo(wt, path):
 
 
 def run_checks(prop_first):
+    # the 16 checks only read /repo: run them side by side (each writes its own evidence file)
+    from concurrent.futures import ThreadPoolExecutor
     res = {}
     order = [prop_first] + [c for c in CLAIMED if c != prop_first]
-    for c in order:
+
+    def one(c):
         rc, out = sh("%s %s/bin/check.py %s" % (PY, VERIF, c), cwd=VERIF)
         rules = sorted(set(re.findall(r"^\s+(R\d+\.\w+'?) ", out, re.M)))
-        res[c] = {"exit": rc, "rules": rules,
-                  "first": next((l.strip()[:300] for l in out.splitlines() if l.strip().startswith("R") and " in " in l), "")
-                  if rc == 1 else (out.strip().splitlines()[-1][:300] if rc == 2 and out.strip() else "")}
+        return c, {"exit": rc, "rules": rules,
+                   "first": next((l.strip()[:300] for l in out.splitlines() if l.strip().startswith("R") and " in " in l), "")
+                   if rc == 1 else (out.strip().splitlines()[-1][:300] if rc == 2 and out.strip() else "")}
+    with ThreadPoolExecutor(max_workers=16) as ex:
+        for c, r in ex.map(one, order):
+            res[c] = r
     return res
 
 
